@@ -7,6 +7,7 @@ use std::{
 };
 
 use fxhash::{FxBuildHasher, FxHashMap};
+use parking_lot::Mutex;
 use tokio::sync::Notify;
 
 use crate::sharded::{self, Sharded};
@@ -17,8 +18,41 @@ use crate::sharded::{self, Sharded};
 /// Other concurrent requests for the same key will wait for the first operation
 /// to complete.
 pub struct SingleFlight<K> {
-    map: Sharded<FxHashMap<K, Arc<Notify>>>,
+    map: Sharded<FxHashMap<K, Arc<Flight>>>,
     build_hasher: FxBuildHasher,
+}
+
+/// The state of the operation that is currently in flight for a key.
+///
+/// It is handed to the worker, which uses it to find out whether what it
+/// computed is still good to be shared (see [`Flight::publish`]).
+#[derive(Debug)]
+pub struct Flight {
+    notify: Arc<Notify>,
+
+    /// Set by [`SingleFlight::invalidate`]. The mutex (rather than an atomic)
+    /// is what orders a publication against an invalidation: whichever takes
+    /// it second sees what the first one did.
+    invalidated: Mutex<bool>,
+}
+
+impl Flight {
+    /// Runs `publish` unless [`SingleFlight::invalidate`] has been called for
+    /// the key since the work began, and tells whether it ran.
+    ///
+    /// An invalidation that does not prevent `publish` from running is
+    /// guaranteed to return only after `publish` has completed.
+    pub fn publish(&self, publish: impl FnOnce()) -> bool {
+        let invalidated = self.invalidated.lock();
+
+        if *invalidated {
+            return false;
+        }
+
+        publish();
+
+        true
+    }
 }
 
 impl<K> std::fmt::Debug for SingleFlight<K> {
@@ -42,7 +76,7 @@ impl<K: Eq + Hash + Clone> SingleFlight<K> {
     pub async fn wait_or_work<T>(
         &self,
         key: &K,
-        work: impl FnOnce() -> T,
+        work: impl FnOnce(&Flight) -> T,
     ) -> Option<T> {
         let hash = self.build_hasher.hash_one(key);
         let shard_index = self.map.shard_index(hash);
@@ -52,13 +86,16 @@ impl<K: Eq + Hash + Clone> SingleFlight<K> {
 
             match shard.entry(key.clone()) {
                 Entry::Occupied(occupied_entry) => {
-                    Ok(occupied_entry.get().clone().notified_owned())
+                    Ok(occupied_entry.get().notify.clone().notified_owned())
                 }
                 Entry::Vacant(vacant_entry) => {
-                    let notify = Arc::new(Notify::new());
-                    vacant_entry.insert(notify.clone());
+                    let flight = Arc::new(Flight {
+                        notify: Arc::new(Notify::new()),
+                        invalidated: Mutex::new(false),
+                    });
+                    vacant_entry.insert(flight.clone());
 
-                    Err(notify)
+                    Err(flight)
                 }
             }
         };
@@ -70,17 +107,34 @@ impl<K: Eq + Hash + Clone> SingleFlight<K> {
                 // we were a waiter, so no result
                 None
             }
-            Err(notify) => {
-                let result = work();
+            Err(flight) => {
+                let result = work(&flight);
 
                 let mut shard = self.map.write_shard(shard_index);
                 shard.remove(key);
 
-                notify.notify_waiters();
+                flight.notify.notify_waiters();
 
                 // we were the worker, so return the result
                 Some(result)
             }
+        }
+    }
+
+    /// Marks the operation that is in flight for the given key, if any, as
+    /// invalidated: its [`Flight::publish`] will not run anymore.
+    ///
+    /// Call this after having made a change that an operation which is already
+    /// under way may have missed, and before looking for what that operation
+    /// publishes.
+    pub fn invalidate(&self, key: &K) {
+        let hash = self.build_hasher.hash_one(key);
+        let shard_index = self.map.shard_index(hash);
+
+        let flight = self.map.read_shard(shard_index).get(key).cloned();
+
+        if let Some(flight) = flight {
+            *flight.invalidated.lock() = true;
         }
     }
 }
